@@ -421,6 +421,7 @@ class Engine:
         self.stale_state = False     # cutoff moved back by a stale batch
         self.top = _top(self.spec)
         self.dead = False
+        self.deferred = []
         if prop == "C03":
             o = scen["series"]["origin"]
             if self.kind == "int" and o != 0:
@@ -476,6 +477,8 @@ class Engine:
                 self.check_state(i, op)
             self.res.states.add(short_hash([self.a.cut, self.a.pos, self.a.fh_steps,
                                             len(self.a.seen), self.refit_clean]))
+        for cls_, detail_ in self.deferred:
+            self.v(cls_, detail_, op="predict", model="theta")
 
     def op_fit(self, i, op):
         n0 = op["n"]
@@ -1217,6 +1220,16 @@ class Engine:
                 self.note("abs_time_twin_raised", type(e).__name__)
                 return
         self.res.probe("frozen_model_same_time_points_checked")
+        if not C.same_series(p, q2) and _contains(self.spec, lambda s_: s_["kind"] == "theta"):
+            # (a known finding, see known_findings.json: reported once, at the end of the
+            # history, so that it does not cut the history short)
+            if not self.deferred:
+                self.deferred.append(("frozen_forecast_moves_with_cutoff",
+                                      "ThetaForecaster, parameters frozen (update_params=False), cutoff "
+                                      "moved to %s: predict(%s) gives %s for the time points %s; the "
+                                      "forecaster as of its last fit gives %s for those time points" % (
+                                          a.label(a.cut), steps, C.fmt(p), labels[:5], C.fmt(q2))))
+            return
         if not C.same_series(p, q2):
             self.v("forecast_not_from_new_cutoff",
                    "parameters frozen (update_params=False), cutoff moved to %s: predict(%s) "
@@ -1418,7 +1431,9 @@ def _batching_invariant(spec):
 def _time_only(spec):
     """Forecast = f(fitted parameters, time point): no dependence on the latest observations."""
     k = spec["kind"]
-    if k == "trend":
+    if k in ("trend", "expsm", "ets", "theta"):
+        # (smoothing models: with frozen parameters the fitted state is that of the last fit,
+        # and the forecast for a time point is an extrapolation from there)
         return True
     if k == "ensemble":
         return all(_time_only(m) for m in spec["members"])
